@@ -195,3 +195,49 @@ def concrete_before_templated(ctx, rule, fn, getter, crate='pavexc'):
     ctx.ob(rule, 'concrete-first|%s' % (fn.split('::')[-2] + '::' + fn.split('::')[-1]), ok and hit_returns, b.loc(gets[0]) if gets else b.loc(),
            'the exact entry is looked up before the templated ones are searched (%s) and a hit is returned without consulting them (%s): a handler or '
            'constructor registered for exactly this type is never replaced by a specialised generic one' % (ok, hit_returns))
+
+
+def own_scope_everywhere(ctx, rule):
+    """_process_blueprint hands its own scope (its ScopeId parameter, or a scope it has just created under it) to every registration helper
+    of the blueprint module; nothing is registered against the root scope from inside a nested blueprint"""
+    b = ctx.need(rule, '_process_blueprint', ctx.fb.body('pavexc', BP + '_process_blueprint'))
+    if b is None:
+        return
+    defs = Defs(b)
+    SCOPE = 'pavexc::compiler::analyses::user_components::scope_graph::ScopeId'
+    params = {i for i in range(1, b.raw['argc'] + 1) if b.locals[i] == SCOPE}
+    if not ctx.need(rule, 'ScopeId parameter of _process_blueprint', params):
+        return
+    n = 0
+    for bb, t in b.calls():
+        c = strip_generics(callee(t) or '')
+        if not c.startswith(BP) or c == BP + '_process_blueprint':
+            continue
+        for a, ty in zip(t['args'], t['aty']):
+            if ty != SCOPE:
+                continue
+            n += 1
+            pl = op_place(a)
+            sl, locs = backward_slice(b, pl['l'], defs) if pl else ([], set())
+            calls = {x for x, _, _ in slice_calls(sl)}
+            own = bool(locs & params) or any(x.endswith('ScopeGraphBuilder::add_scope') for x in calls)
+            root = any(x.endswith('::root_scope_id') for x in calls)
+            ctx.ob(rule, 'own-scope|%s' % c.replace(BP, ''), own and not root, b.loc(bb, t),
+                   '%s is given %s' % (c.replace(BP, ''), 'the scope of the blueprint being processed' if own and not root else
+                                       'a scope that does not derive from the current blueprint (%s)' % sorted(x.split('::')[-1] for x in calls if 'scope' in x.lower())))
+    ctx.floor(rule, 'scope arguments handed to registration helpers', n, 8)
+
+
+def vec_append_only(ctx, rule, crate, fn, elem_marker, what):
+    """a result list is only ever pushed to: no retain / dedup / remove / truncate (dropping an element silently drops a registration)"""
+    bad_ops = {'retain', 'retain_mut', 'dedup', 'dedup_by', 'dedup_by_key', 'remove', 'swap_remove', 'truncate', 'pop', 'drain', 'clear', 'split_off'}
+    n = 0
+    for b in ctx.fb.bodies_of_item(crate, fn):
+        for bb, t in b.calls():
+            if t['aty'] and t['aty'][0].startswith('&mut alloc::vec::Vec<') and elem_marker in t['aty'][0]:
+                m = (callee(t) or '').split('::')[-1]
+                n += 1
+                if m in bad_ops:
+                    ctx.ob(rule, 'list-mutation|%s|%s' % (fn.split('::')[-1], m), False, b.loc(bb, t), 'Vec::%s on %s in %s: entries can disappear' % (m, what, fn.split('::')[-1]))
+    ctx.ob(rule, 'append-only|%s' % fn.split('::')[-1], True, '', '%d mutable accesses to %s, none removes' % (n, what), nontrivial=False)
+    ctx.floor(rule, 'mutable accesses to %s' % what, n, 1)
